@@ -36,7 +36,7 @@ def plan(tier):
   if tier == 'quick':
     return {'runs': 2400, 'budget_s': 420, 'per_run_timeout_s': 120, 'selftest_runs': 16,
             'selftest_runs_full': 96, 'shrink_budget_s': 60}
-  return {'runs': 40000, 'budget_s': 1800, 'per_run_timeout_s': 300, 'selftest_runs': 32,
+  return {'runs': 150000, 'budget_s': 1800, 'per_run_timeout_s': 300, 'selftest_runs': 32,
           'selftest_runs_full': 256, 'shrink_budget_s': 120}
 
 
